@@ -1,5 +1,6 @@
 import IPT.Model.Range
 import IPT.Model.Times
+import IPT.Model.Rng
 import IPT.Lemmas.Civil
 /-
   C14 — range results are the per-day results for exactly the days in the range.
@@ -153,11 +154,9 @@ theorem partition_empty (s e : Int) (k : Nat) (h : e < s) (hk : 2 ≤ k) : parti
   have : ¬ s ≤ e := by omega
   simp [this]
 
-/-- prayer_times_dt_rng: one entry per date of `start.iter_days().take(num_days)`, each the
-    single-date result (a `for` loop inserting `prayer_times_dt(params, location, date, None)`) -/
-def rngModel {α : Type} [Add α] [Sub α] [Mul α] [Div α] [Neg α] [OfScientific α] [Sc α]
-    (p : Params α) (loc : Location α) (s e : Int) : List (Int × Except Panic DayTimes) :=
-  (rangeDates s e).map fun rd => (rd, prayerTimesDt p loc rd none)
+-- the range model lives in Model/Rng.lean (`IPT.rngModel`: the object unit `rng` compares with the
+-- real `prayer_times_dt_rng`); `C14.rngModel` is the same constant
+export IPT (rngModel)
 
 /-- **the range model has one entry per calendar date from start to end inclusive - none when the end
     precedes the start - each the single-date result for that date.**  `rngModel` (above) mirrors the
